@@ -297,18 +297,20 @@ class OrthoXML_manager(object):
 
         from . import abstractgene as absGene
 
-        def _process_child(child, current_xml):
+        def _process_child(child, current_xml, wide=False):
 
             if isinstance(child, absGene.Gene):
                 generef_xml = etree.SubElement(current_xml, "geneRef")
                 generef_xml.set('id', str(child.unique_id))
             else:
-                _visit(child, current_xml)
+                _visit(child, current_xml, wide)
 
-        def _visit(hog, parent):
+        def _visit(hog, parent, wide=False):
 
             # a group can only be left out when its content is written into an enclosing orthologGroup
-            can_elide = parent.tag == "orthologGroup"
+            # whose own level is fixed by at least two lineages (wide); otherwise the level of the
+            # enclosing group would be inferred one level too low when the file is read back
+            can_elide = parent.tag == "orthologGroup" and wide
 
             if len(hog.children) == 1 and can_elide:
                 current_hog_xml = parent
@@ -344,19 +346,23 @@ class OrthoXML_manager(object):
                 current_hog_xml.set('id', str(hog.hog_id))
 
             processed_child = []
-            if len(hog.duplications) > 0:
-
-                for duplicationNode in hog.duplications:
-
-                    paralogGroup = etree.SubElement(current_hog_xml, "paralogGroup")
-
-                    for child in duplicationNode.children:
-                        _process_child(child, paralogGroup)
-                        processed_child.append(child)
-
+            for duplicationNode in hog.duplications:
+                processed_child += duplicationNode.children
             remaining_hog = list(set(hog.children) - set(processed_child))
+
+            if current_hog_xml is not parent:
+                # a new group was written for this hog: its level is fixed when it has two lineages or more
+                wide = len(hog.duplications) + len(remaining_hog) >= 2
+
+            for duplicationNode in hog.duplications:
+
+                paralogGroup = etree.SubElement(current_hog_xml, "paralogGroup")
+
+                for child in duplicationNode.children:
+                    _process_child(child, paralogGroup)
+
             for child in remaining_hog:
-                    _process_child(child, current_hog_xml)
+                    _process_child(child, current_hog_xml, wide)
 
         self.groupsxml = etree.SubElement(self.xml, "groups")
 
